@@ -506,7 +506,7 @@ DT_REGEX = re.compile(
                 (
                     \[(?P<gmt_offset_hours>[0-9-+]+)
                     (
-                        (\.(?P<gmt_offset_minutes>\d\d))?
+                        (\.(?P<gmt_offset_minutes>[0-9]{2}))?
                         (:(?P<tz_name>.*))?
                     )?
                     \]
@@ -670,7 +670,7 @@ TIME_REGEX = re.compile(
         (
             \[(?P<gmt_offset_hours>[0-9-+]+)
             (
-                (\.(?P<gmt_offset_minutes>\d\d))?
+                (\.(?P<gmt_offset_minutes>[0-9]{2}))?
                 (:(?P<tz_name>.*))?
             )?
             \]
